@@ -1,9 +1,9 @@
 (* C20 — proofs of the real-number part: shape of the Hann window (true cos), the
    rectangle window, and the phases sampled by Window::new(n).
    Uses only the standard library's real-number axioms. *)
-Require Import Reals Lra Lia ZArith.
+Require Import Reals Lra Lia ZArith List.
 From Flocq Require Import Raux.
-From Dasp Require Import Signal.Window Signal.WindowR.
+From Dasp Require Import Base.Res Signal.Window Signal.WindowR Signal.WindowProofs.
 Open Scope R_scope.
 
 Lemma hannR_eq p : hannR p = 1 / 2 * (1 - cos (2 * PI * p)).
@@ -144,9 +144,6 @@ Proof.
 Qed.
 
 (* ---- chunks of a Hann / rectangle windower over real-valued frames ---- *)
-Require Import List.
-From Dasp Require Import Base.Res Signal.WindowProofs.
-
 Definition windowed_take_R (wfun : R -> R) (nch m : nat) (c : list (list R)) (b : nat) : list (list R) :=
   windowed_take AR wfun R R (fun v => v) Rmult 0 nch m (windowed_of AR R c b).
 
